@@ -5,6 +5,7 @@ UNIT == 10000
 Recs == ndJsonDeserialize(IOEnv.TRACE_FILE)
 VARIABLE tid
 Solved(r) == r.solved = TRUE
+Abs(x) == IF x < 0 THEN -x ELSE x
 IsInt(r) == \A i \in 1..Len(r.sol_list) : r.sol_list[i] % UNIT = 0
 G(r) == [i \in 1..Len(r.sol_list) |-> r.sol_list[i] \div UNIT]
 
@@ -16,7 +17,13 @@ Clauses(r) ==
 Chosen(r) == {r.sol_list[i] \div UNIT + 1 : i \in 1..Len(r.sol_list)}    \* 0-based indices returned
 Holds(c, r) ==
   CASE c = "NoCrash" -> r.ctor_exc = "none" /\ r.solve_exc = "none" /\ (Solved(r) => r.sol_exc = "none")
-    [] c = "GenSetValid" -> IsInt(r) /\ GenSetValid(G(r), r.numbers, r.total, r.mult, r.pcs)
+    [] c = "GenSetValid" ->
+         IF r.wt = "int" THEN IsInt(r) /\ GenSetValid(G(r), r.numbers, r.total, r.mult, r.pcs)
+         ELSE \* float generators: the same definition in fixed point, with a rounding allowance per generator
+              LET g == r.sol_list  tol == 5 * (1 + Len(r.sol_list)) IN
+              /\ \A i \in 1..Len(g) : g[i] >= -5
+              /\ Abs(SumSeq(g) - r.total * UNIT) <= tol
+              /\ \A i \in 1..Len(r.numbers) : \E x \in Sums(g, r.mult) : Abs(x - r.numbers[i] * UNIT) <= tol
     [] c = "TypesAsRequested" -> \A i \in 1..Len(r.sol_list_types) : r.sol_list_types[i] = r.wt
     [] c = "SolvedIffCoverExists" -> Solved(r) <=> (MinCoverWeight(ToSet(r.universe), r.subsets, r.sweights) # -1)
     [] c = "CoverValid" -> /\ Chosen(r) \subseteq 1..Len(r.subsets)
